@@ -7,7 +7,7 @@
    All statements are for ALL sizes n, k, c, numbers of factors / blocks / repeats. *)
 From mathcomp Require Import all_ssreflect all_algebra.
 Require Import C04.Model C04.ProofsBridge C04.ProofsTri C04.ProofsChol C04.ProofsStruct C04.ProofsKron
-               C04.ProofsEig C04.ProofsBlock C04.ProofsAlg C04.ProofsCholFactor C04.ProofsSound C04.ProofsSelect C04.ProofsKronTri C04.ProofsEigKron C04.ProofsJitter C04.ProofsFactor C04.ProofsAll.
+               C04.ProofsEig C04.ProofsBlock C04.ProofsAlg C04.ProofsCholFactor C04.ProofsSound C04.ProofsSelect C04.ProofsKronTri C04.ProofsEigKron C04.ProofsJitter C04.ProofsFactor C04.ProofsKronDiag C04.ProofsAll.
 Set Implicit Arguments.
 Unset Strict Implicit.
 Unset Printing Implicit Defensive.
@@ -129,6 +129,15 @@ Theorem C04_method_independent_left n c o (A : 'M[F]_n) (L : 'M[F]_(o, n)) (B X1
   L *m X1 = L *m invmx A *m B /\ L *m X2 = L *m invmx A *m B.
 Proof. exact: method_independent_left. Qed.
 
+(* Kron + Kronecker-structured diagonal (KroneckerProductAddedDiagLinearOperator._solve, both structured branches) rest on:
+   A = S1^-1 Q P^-1 Q^T S2^-1 with diagonal S1, S2, P and orthogonal Q  ==>  A (S2 Q P Q^T S1 b) = b     (any size) *)
+Theorem C04_qsq_identity n (A Q : 'M[F]_n) (s1 s2 p s1i s2i pi : 'rV[F]_n) (b : 'cV[F]_n) :
+  Q^T *m Q = 1%:M ->
+  (forall j, s1i 0 j * s1 0 j = 1) -> (forall j, s2i 0 j * s2 0 j = 1) -> (forall j, pi 0 j * p 0 j = 1) ->
+  A = diag_mx s1i *m Q *m diag_mx pi *m Q^T *m diag_mx s2i ->
+  A *m (diag_mx s2 *m (Q *m (diag_mx p *m (Q^T *m (diag_mx s1 *m b))))) = b.
+Proof. exact: qsq_identity. Qed.
+
 (* psd_safe_cholesky factorises a whole batch in one call and, when a member fails, retries with jitter "only where
    needed".  For ANY batch (any number of members, any sizes, any jitter 10^-e, any max_tries): if the batch call
    returns factors, member m's factor is exactly the one psd_safe_cholesky returns for that member alone - the result
@@ -249,11 +258,66 @@ Example C04_cholof_returns (s : settings) up :
   exists X, alg_solve RA s (DCholOf up (DDiag 2 [:: 1; 1 : F])) [:: [:: 1; 0]] None = Some X.
 Proof. by eexists; rewrite /alg_solve /select_solve /=; reflexivity. Qed.
 
+(* the executable kernel both structured-diagonal branches share: with Qb = kron Q_i (ANY number of factors, eigh oracle:
+   Q_i^T Q_i = I), it computes  diag(s2) Qb diag(p) Qb^T diag(s1) b  through the Kronecker rotation *)
+Theorem C04_qsq_solve_correct (es : seq (eigd F)) (s1 : option (vec F)) (pinv s2 : vec F) c (X : cols F) col :
+  all_eig_wf es -> (0 < c)%N -> (col < c)%N -> size X = c ->
+  let N := prodm (map (@qfac F) es) in
+  let Qb : 'M[F]_N := \matrix_(I, J) kron (map (@qfac F) es) I J in
+  let S1 : 'rV[F]_N := \row_J (if s1 is Some sv then vget RA sv J else 1) in
+  let P : 'rV[F]_N := \row_J vget RA pinv J in
+  let S2 : 'rV[F]_N := \row_J vget RA s2 J in
+  cv_of (@rsq F) (@rlt F) N (nth [::] (qsq_solve RA es s1 pinv s2 c X) col)
+  = diag_mx S2 *m (Qb *m (diag_mx P *m (Qb^T *m (diag_mx S1 *m cv_of (@rsq F) (@rlt F) N (nth [::] X col))))).
+Proof. exact: qsq_solve_correct. Qed.
+
+(* every diagonal factor constant (_constant_kpadlt_constructor): Ks = the factor matrices with K_i = Q_i diag(w_i) Q_i^T,
+   ds = constant factor diagonals c_i != 0; any number of factors:  (kron K_i + kron D_i) * result = rhs *)
+Theorem C04_keig_const_correct (Ks : seq (fac F)) (es : seq (eigd F)) (ds : seq (vec F)) c (X : cols F) col :
+  all3P (@kc_spec F) Ks es ds -> (0 < c)%N -> (col < c)%N -> size X = c ->
+  let N := prodm (map (@qfac F) es) in
+  let Kb : 'M[F]_N := \matrix_(I, J) kron Ks I J in
+  let Db : 'rV[F]_N := \row_J vget RA (kron_evals RA ds) J in
+  let Wb : 'rV[F]_N := \row_J vget RA (kron_evals RA (map snd es)) J in
+  (forall J : 'I_N, Wb 0 J / cprod ds + 1 != 0) ->
+  (Kb + diag_mx Db) *m cv_of (@rsq F) (@rlt F) N (nth [::] (keig_solve RA true es ds c X) col)
+  = cv_of (@rsq F) (@rlt F) N (nth [::] X col).
+Proof. exact: keig_const_correct. Qed.
+
+(* general (positive) diagonal factors (_symmetrize_kpadlt_constructor): D_i^-1/2 K_i D_i^-1/2 = Q_i diag(w_i) Q_i^T *)
+Theorem C04_keig_diag_correct (Ks : seq (fac F)) (es : seq (eigd F)) (ds : seq (vec F)) c (X : cols F) col :
+  all3P (@kd_spec F) Ks es ds -> (0 < c)%N -> (col < c)%N -> size X = c ->
+  let N := prodm (map (@qfac F) es) in
+  let Kb : 'M[F]_N := \matrix_(I, J) kron Ks I J in
+  let Db : 'rV[F]_N := \row_J vget RA (kron_evals RA ds) J in
+  let Wb : 'rV[F]_N := \row_J vget RA (kron_evals RA (map snd es)) J in
+  (forall J : 'I_N, Wb 0 J + 1 != 0) ->
+  (Kb + diag_mx Db) *m cv_of (@rsq F) (@rlt F) N (nth [::] (keig_solve RA false es ds c X) col)
+  = cv_of (@rsq F) (@rlt F) N (nth [::] X col).
+Proof. exact: keig_diag_correct. Qed.
+
+Example C04_kc_spec_sat : all3P (@kc_spec F) [:: Fac 1 1 (fun _ _ => 1)] [:: (1%N, [:: [:: 1]], [:: 1])] [:: [:: 1 : F]].
+Proof.
+split=> //; split=> //=.
+- by split=> // -[|i] [|l] // _ _; rewrite big_ord_recl big_ord0 /Model.get /= mulr1 addr0.
+- by split=> [[|a]|] //; rewrite /Model.vget /= oner_neq0.
+- by move=> [|i] [|j] // _ _; rewrite /qwq big_ord_recl big_ord0 /Model.get /Model.vget /= !mulr1 addr0.
+Qed.
+
+Example C04_kd_spec_sat : all3P (@kd_spec F) [:: Fac 1 1 (fun _ _ => 1)] [:: (1%N, [:: [:: 1]], [:: 1])] [:: [:: 1 : F]].
+Proof.
+split=> //; split=> //=.
+- by split=> // -[|i] [|l] // _ _; rewrite big_ord_recl big_ord0 /Model.get /= mulr1 addr0.
+- by move=> [|a] // _; rewrite /Model.vget /= ltr01.
+- move=> [|i] [|j] // _ _; rewrite /qwq big_ord_recl big_ord0 /Model.get /Model.vget /= !mulr1 addr0.
+  by rewrite /rsq1 sqrtr1 divr1 mulr1.
+Qed.
+
 (* ======================================================================================================
    THE ALGORITHM OVER EVERY MODELLED POSITIVE-DEFINITE CLASS, AT ANY NESTING DEPTH.
    wfpd o (ProofsAll.v) : o is a tree of Dense-like / AddedDiag / Diag (positive) / Identity / Chol / LowRankRootAddedDiag leaves
-   under Kron (any number of factors), KronAddedDiag (general or constant diagonal, the latter with the eigh oracle's
-   specification per factor), BlockDiag / BlockInterleaved (any number of blocks of one class) and BatchRepeat, every dense
+   under Kron (any number of factors), KronAddedDiag (general, constant, or Kronecker-structured diagonal with constant /
+   general factors; the structured ones with the eigh oracle's specification per factor), BlockDiag / BlockInterleaved (any number of blocks of one class) and BatchRepeat, every dense
    matrix that gets factorised being symmetric with a successful plain Cholesky (numerically PD).
    For EVERY settings record, whatever select_solve picks at every level (Cholesky of the dense matrix, one Cholesky per Kronecker
    factor + two sweeps, per-factor solves through the rotation, eigen-shift, Woodbury, block-wise solves with the base's _solve,
@@ -276,6 +340,12 @@ Theorem C04_alg_solve_sound_cholof_all (s : settings) up (o : opd F) (B X : cols
   wfpd o -> alg_solve RA s (DCholOf up o) B None = Some X ->
   size X = size B /\ forall j, (j < size B)%N -> solves o (nth [::] X j) (nth [::] B j).
 Proof. exact: alg_solve_sound_cholof_all. Qed.
+
+Theorem C04_alg_solve_sound_cholof_all_left (s : settings) up (o : opd F) (B Y : cols F) k (L : mat F) :
+  wfpd o -> alg_solve RA s (DCholOf up o) B (Some (k, L)) = Some Y ->
+  exists X, [/\ size X = size B, forall j, (j < size B)%N -> solves o (nth [::] X j) (nth [::] B j)
+              & Y = left_mul RA k (osize o) L X].
+Proof. exact: alg_solve_sound_cholof_all_left. Qed.
 
 (* METHOD INDEPENDENCE OVER ALL MODELLED CLASSES: for any two settings records and any two routes (direct = whatever the selector
    picks; or through the factor operator of an orientation), the returned columns coincide.  No invertibility hypothesis: the
@@ -321,6 +391,14 @@ Theorem C04_alg_solve_sound_perm (s : settings) (p : seq nat) (B X : cols F) :
   alg_solve RA s (DPerm F p) B None = Some X ->
   size X = size B /\ forall j, (j < size B)%N -> solves (DPerm F p) (nth [::] X j) (nth [::] B j).
 Proof. exact: alg_solve_sound_perm. Qed.
+
+Theorem C04_alg_solve_sound_perm_left (s : settings) (p : seq nat) (B Y : cols F) k (L : mat F) :
+  uniq p -> all (fun x => (x < size p)%N) p -> all (fun b => size b == size p) B ->
+  fast_solves s -> (max_cholesky_size s < size p)%N ->
+  alg_solve RA s (DPerm F p) B (Some (k, L)) = Some Y ->
+  exists X, [/\ size X = size B, forall j, (j < size B)%N -> solves (DPerm F p) (nth [::] X j) (nth [::] B j)
+              & Y = left_mul RA k (size p) L X].
+Proof. exact: alg_solve_sound_perm_left. Qed.
 
 (* the executable eigen-shift kernel (KroneckerProductAddedDiag._solve, constant diagonal), any number of factors:
    with Qb = ⊗ Q_i and Wb = ⊗ w_i (eigh oracle: Q_i^T Q_i = I),  (Qb diag(Wb) Qb^T + sigma I) * result = rhs *)
